@@ -61,7 +61,7 @@ func init() {
 			readVar := r.P.FuncObj("dkv/fields", "ReadVarBytes")
 			// the scan loop: the for statement whose body calls ReadTombstone
 			var loop *ast.ForStmt
-			ast.Inspect(f.Decl.Body, func(nd ast.Node) bool {
+			inspect(f.Decl.Body, func(nd ast.Node) bool {
 				if fs, ok := nd.(*ast.ForStmt); ok && loop == nil && r.exprCalls(info, fs.Body, readTomb) {
 					loop = fs
 				}
@@ -73,7 +73,7 @@ func init() {
 			}
 			// operands: deleted flag = first result of ReadTombstone; current key = operand of bytes.Equal with the parameter
 			var deleted, curKey, keyErr types.Object
-			ast.Inspect(loop.Body, func(nd ast.Node) bool {
+			inspect(loop.Body, func(nd ast.Node) bool {
 				switch x := nd.(type) {
 				case *ast.AssignStmt:
 					if len(x.Rhs) == 1 {
@@ -100,7 +100,7 @@ func init() {
 			}
 			// the key read: assignment defining curKey from ReadVarBytes; its error variable
 			var keyRead *ast.AssignStmt
-			ast.Inspect(loop.Body, func(nd ast.Node) bool {
+			inspect(loop.Body, func(nd ast.Node) bool {
 				if as, ok := nd.(*ast.AssignStmt); ok && len(as.Lhs) == 2 && len(as.Rhs) == 1 && prog.IdentObj(info, as.Lhs[0]) == curKey {
 					if call, ok := ast.Unparen(as.Rhs[0]).(*ast.CallExpr); ok && r.P.CalleeFunc(info, call) == readVar {
 						keyRead = as
@@ -211,7 +211,7 @@ func init() {
 			readTomb := r.P.FuncObj("dkv/fields", "ReadTombstone")
 			var lit *ast.FuncLit
 			var loop *ast.ForStmt
-			ast.Inspect(f.Decl.Body, func(nd ast.Node) bool {
+			inspect(f.Decl.Body, func(nd ast.Node) bool {
 				if fl, ok := nd.(*ast.FuncLit); ok && lit == nil && len(fl.Type.Params.List) == 1 {
 					lit = fl
 				}
@@ -235,7 +235,7 @@ func init() {
 				}
 			}
 			var keyVar types.Object
-			ast.Inspect(loop.Body, func(nd ast.Node) bool {
+			inspect(loop.Body, func(nd ast.Node) bool {
 				if call, ok := nd.(*ast.CallExpr); ok && r.P.CalleeFunc(info, call) == hasPrefix && len(call.Args) == 2 && r.isParam(f, call.Args[1], 0) {
 					keyVar = prog.IdentObj(info, call.Args[0])
 				}
@@ -310,7 +310,7 @@ func init() {
 				f := r.P.Func("dkv/sst", name)
 				info := f.Pkg.TypesInfo
 				n := 0
-				ast.Inspect(f.Decl.Body, func(nd ast.Node) bool {
+				inspect(f.Decl.Body, func(nd ast.Node) bool {
 					rs, ok := nd.(*ast.RangeStmt)
 					if !ok {
 						return true
@@ -382,7 +382,7 @@ func init() {
 				f := r.P.Func("dkv/sst", name)
 				info := f.Pkg.TypesInfo
 				okCur := false
-				ast.Inspect(f.Decl.Body, func(nd ast.Node) bool {
+				inspect(f.Decl.Body, func(nd ast.Node) bool {
 					call, ok := nd.(*ast.CallExpr)
 					if !ok || r.P.CalleeFunc(info, call) != bounded || len(call.Args) != 3 {
 						return true
